@@ -1,4 +1,7 @@
-//! bp — deterministic harness for the leader side (`src/consensus/block_producer.rs`); oracle-only, no Lean model.
+//! bp — deterministic harness for the leader side (`src/consensus/block_producer.rs`): property oracles, and (for C13)
+//! correspondence with the Lean model `AgModel.BlockProducer` (`lean/Driver/BlockProducer.lean`, `drv_bp`): per block the
+//! op lines `begin` / `slice`* / `end` carry what the ENVIRONMENT saw (trace `T`, `model_ops`), the impl lines what the
+//! producer disseminated and stored (see `notes/BlockProducer.md`). Racy plans are not replayed on the model.
 //!
 //! A real `BlockProducer` (hook `VerifBlockProducer`) is built from a real `BlockstoreImpl`, a real `PoolImpl`, a
 //! recording `Disseminator` and a scripted transaction `Network`, and is asked for one block at a time through
@@ -102,15 +105,35 @@ struct Shared {
     /// how many of the 64 sends of every slice fail (<= 30)
     fail_per_64: u64,
     fail_salt: u64,
+    /// what the environment saw, in order (input of the Lean model, see `model_ops`)
+    trace: Vec<T>,
+}
+/// environment-side trace of one block's production
+#[derive(Clone, Debug, PartialEq)]
+enum T {
+    /// the socket handed out a transaction of this length
+    Tx(usize),
+    /// a `receive()` of the producer went pending (yield at a slice boundary, scripted wait, empty script)
+    Pend,
+    /// the ParentReady was put into the channel from inside the producer's own poll (script, after a slice went out)
+    Pr,
+    /// ... while the producer was pending (timer) or before it started
+    PrNow,
+    /// the last shred of this slice was handed to the disseminator
+    Out(usize),
 }
 type Sh = Arc<Mutex<Shared>>;
 fn lock(sh: &Sh) -> MutexGuard<'_, Shared> {
     sh.lock().unwrap_or_else(|e| e.into_inner())
 }
 fn fire_pr(st: &mut Shared, whence: String) {
+    fire_pr_t(st, whence, T::Pr)
+}
+fn fire_pr_t(st: &mut Shared, whence: String, t: T) {
     if let Some((tx, id)) = st.pr.take() {
         let _ = tx.send(id);
         st.pr_fired = Some(whence);
+        st.trace.push(t);
     }
 }
 
@@ -147,6 +170,7 @@ impl Network for ScriptNet {
             y
         };
         if y {
+            lock(&self.0).trace.push(T::Pend);
             YieldOnce(false).await;
         }
         loop {
@@ -157,6 +181,7 @@ impl Network for ScriptNet {
                     Some(Ev::Tx(b)) => {
                         st.script.pop_front();
                         st.delivered.push(b.clone());
+                        st.trace.push(T::Tx(b.len()));
                         return Ok(Transaction(b));
                     }
                     Some(Ev::Pr) => {
@@ -177,6 +202,7 @@ impl Network for ScriptNet {
                     }
                 }
             };
+            lock(&self.0).trace.push(T::Pend);
             match deadline {
                 None => std::future::pending::<()>().await,
                 Some(dl) => tokio::time::sleep_until(dl).await,
@@ -196,6 +222,9 @@ impl Disseminator for RecDiss {
         let ok = ((idx as u64 * 37 + rot) % 64) >= st.fail_per_64;
         st.sent.push((shred.clone(), ok));
         st.boundary = true;
+        if idx == TOTAL_SHREDS - 1 {
+            st.trace.push(T::Out(slice));
+        }
         if idx == TOTAL_SHREDS - 1 && st.pr_after_slice == Some((slot.inner(), slice)) {
             fire_pr(&mut st, format!("after slice {slice} went out"));
         }
@@ -410,6 +439,65 @@ struct World {
     pk: PublicKey,
     class: u64,
     shredder: RegularShredder,
+    /// block hashes of the current case, interned in order of first appearance (1-based)
+    hashes: Vec<Vec<u8>>,
+}
+
+fn intern(tab: &mut Vec<Vec<u8>>, b: Vec<u8>) -> usize {
+    match tab.iter().position(|x| *x == b) {
+        Some(i) => i + 1,
+        None => {
+            tab.push(b);
+            tab.len()
+        }
+    }
+}
+fn hbytes(h: &BlockHash) -> Vec<u8> {
+    wincode::serialize(h).expect("hash bytes")
+}
+
+/// The op lines of the Lean model (`lean/Driver/BlockProducer.lean`) for one block, from what the ENVIRONMENT saw:
+/// per slice the lengths of the transactions the socket handed out while it was produced, whether it went out while
+/// a `receive()` was pending (= its deadline fired), and the ParentReady its `select!` received (a ParentReady sent
+/// from inside the producer's poll is received by the first slice that goes pending afterwards).
+fn model_ops(trace: &[T], pr: Option<(u64, usize)>, trailing: bool) -> Vec<String> {
+    let mut segs: Vec<Vec<T>> = vec![vec![]];
+    for t in trace {
+        if let T::Out(_) = t {
+            segs.push(vec![]);
+        } else {
+            segs.last_mut().expect("segment").push(t.clone());
+        }
+    }
+    let last = segs.pop().expect("segment");
+    if trailing {
+        segs.push(last);
+    }
+    let mut carried = false;
+    let mut out = vec![];
+    for (j, seg) in segs.iter().enumerate() {
+        let mut got_pr = carried;
+        carried = false;
+        if let Some(p) = seg.iter().position(|t| *t == T::PrNow) {
+            let _ = p;
+            got_pr = true;
+        }
+        if let Some(p) = seg.iter().position(|t| *t == T::Pr) {
+            if seg[p..].contains(&T::Pend) {
+                got_pr = true;
+            } else {
+                carried = true;
+            }
+        }
+        let dl = matches!(seg.iter().rev().find(|t| matches!(t, T::Tx(_) | T::Pend)), Some(T::Pend));
+        let lens: Vec<String> = seg.iter().filter_map(|t| if let T::Tx(n) = t { Some(n.to_string()) } else { None }).collect();
+        let prs = match (got_pr, pr) {
+            (true, Some((s, h))) => format!("{s} {h}"),
+            _ => "-".into(),
+        };
+        out.push(format!("slice {j} dl {} zl 0 pr {prs} rx {}", dl as u8, lens.join(" ")));
+    }
+    out
 }
 
 struct SliceView {
@@ -434,6 +522,7 @@ fn evs_str(v: &[(String, u64, Option<BlockHash>)]) -> String {
 
 fn run_case(w: &mut World, rng: &mut Rng, c: &CasePlan) {
     w.rec.begin_case(&c.tag);
+    w.hashes.clear();
     let desc = plan_desc(c);
     w.rec.step(&format!("plan {desc}"), "ok");
     let rt = tokio::runtime::Builder::new_current_thread().enable_time().start_paused(true).build().expect("runtime");
@@ -449,6 +538,7 @@ fn run_case(w: &mut World, rng: &mut Rng, c: &CasePlan) {
         sent: vec![],
         fail_per_64: c.fail_per_64,
         fail_salt: rng.next(),
+        trace: vec![],
     }));
     let epoch = make_epoch(&w.keys, &[1, 1, 1, 1, 1, 1], 0);
     let (ltx, mut lrx) = mpsc::channel(1 << 16);
@@ -490,11 +580,21 @@ fn run_case(w: &mut World, rng: &mut Rng, c: &CasePlan) {
             }
         };
         let expected_parent = pr.clone().unwrap_or_else(|| given.clone());
+        let gid = intern(&mut w.hashes, hbytes(&given.1));
+        let prid = pr.as_ref().map(|p| (p.0.inner(), intern(&mut w.hashes, hbytes(&p.1))));
+        let begin_op = format!(
+            "begin {} {slot} {} {gid} {} {}",
+            if pr.is_some() { "notready" } else { "ready" },
+            given.0.inner(),
+            (c.delta_block == c.delta_first) as u8,
+            w.hashes.len()
+        );
         let (sent_from, delivered_from) = {
             let mut st = lock(&sh);
             st.script.extend(b.script.iter().cloned());
             st.pr_fired = None;
             st.pr_after_slice = None;
+            st.trace.clear();
             st.boundary = true; // the first receive() of a block yields once, like the first one of a later slice
             (st.sent.len(), st.delivered.len())
         };
@@ -506,7 +606,7 @@ fn run_case(w: &mut World, rng: &mut Rng, c: &CasePlan) {
             let mut st = lock(&sh);
             st.pr = Some((tx, pr.clone()));
             match when {
-                PrWhen::Before => fire_pr(&mut st, "before production".into()),
+                PrWhen::Before => fire_pr_t(&mut st, "before production".into(), T::PrNow),
                 PrWhen::Script => {}
                 PrWhen::AfterSlice(k) => st.pr_after_slice = Some((slot, *k)),
                 PrWhen::AtTime(d) => timer = Some(*d),
@@ -526,7 +626,7 @@ fn run_case(w: &mut World, rng: &mut Rng, c: &CasePlan) {
                 let pr_timer = async move {
                     if let Some(d) = timer {
                         tokio::time::sleep(d).await;
-                        fire_pr(&mut lock(&sh2), format!("timer at {} s", d.as_secs_f64()));
+                        fire_pr_t(&mut lock(&sh2), format!("timer at {} s", d.as_secs_f64()), T::PrNow);
                     }
                 };
                 tokio::time::timeout(watchdog, async { tokio::join!(produce, pr_timer).0 }).await
@@ -538,14 +638,31 @@ fn run_case(w: &mut World, rng: &mut Rng, c: &CasePlan) {
             Ok(Err(_)) => Outcome::Stalled,
             Err(p) => Outcome::Panicked(p),
         };
-        let (sent, delivered, pr_fired) = {
+        let (sent, delivered, pr_fired, trace) = {
             let st = lock(&sh);
-            (st.sent[sent_from..].to_vec(), st.delivered[delivered_from..].to_vec(), st.pr_fired.clone())
+            (st.sent[sent_from..].to_vec(), st.delivered[delivered_from..].to_vec(), st.pr_fired.clone(), st.trace.clone())
         };
         let lev = drain(&mut lrx);
         let ctx = format!("block{bi} slot {slot} given {} pr {} fired [{}] | {desc}", bid(&given), pr.as_ref().map(bid).unwrap_or("-".into()), pr_fired.clone().unwrap_or("-".into()));
-        let r = judge(w, rng, &rt, &ctx, slot, &outcome, &sent, &delivered, &expected_parent, &leader_store, &lev, &mut follower, &mut frx);
-        w.rec.step(&format!("block {bi} slot {slot}"), &r);
+        let (r, slice_lines, block_line) = judge(w, rng, &rt, &ctx, slot, &outcome, &sent, &delivered, &expected_parent, &leader_store, &lev, &mut follower, &mut frx);
+        w.rec.step(&format!("judged block {bi} slot {slot}: {r}"), "ok");
+        // the model's turn: same inputs (as the environment saw them), one line per slice, one per block
+        if c.yield_on_boundary {
+            let done = matches!(outcome, Outcome::Done(_));
+            let ops = model_ops(&trace, prid, !done);
+            w.rec.step(&begin_op, "ok");
+            for (j, op) in ops.iter().enumerate() {
+                let imp = slice_lines.get(j).cloned().unwrap_or_else(|| {
+                    format!("none {}", match outcome {
+                        Outcome::Panicked(_) | Outcome::Failed(_) => "panic",
+                        _ => "blocked",
+                    })
+                });
+                w.rec.step(op, &imp);
+            }
+            w.rec.step("end", &block_line);
+            w.rec.count("blocks-replayed-on-model");
+        }
         class = fnv(class, &r);
         match outcome {
             Outcome::Done(id) => prev = Some(id),
@@ -572,7 +689,7 @@ fn judge(
     leader_events: &[(String, u64, Option<BlockHash>)],
     follower: &mut BlockstoreImpl,
     frx: &mut mpsc::Receiver<BlockstoreEvent>,
-) -> String {
+) -> (String, Vec<String>, String) {
     let rec = &mut w.rec;
     // --- the leader itself
     let done = match outcome {
@@ -752,12 +869,25 @@ fn judge(
     let mut got: Vec<Vec<u8>> = vec![];
     let mut undecodable = vec![];
     let mut per_slice_txs = vec![];
+    let mut ids_hash: Vec<u64> = vec![];
+    let mut cursor = 0usize;
     for (k, v) in views.iter().enumerate() {
+        ids_hash.push(0);
         if let Some(s) = &v.slice {
             let cfg = wincode::config::DefaultConfig::default().with_preallocation_size_limit::<{ 64 << 20 }>();
             let r: Result<Vec<Transaction>, _> = wincode::config::deserialize_exact(&s.data, cfg);
             match r {
                 Ok(txs) => {
+                    let mut h = 7u64;
+                    for t in &txs {
+                        while cursor < delivered.len() && delivered[cursor] != t.0 {
+                            cursor += 1;
+                        }
+                        let id = if cursor < delivered.len() { cursor as u64 } else { 999_999 };
+                        cursor = (cursor + 1).min(delivered.len());
+                        h = (h * 31 + id + 1) % 1_000_000_007;
+                    }
+                    ids_hash[k] = h;
                     per_slice_txs.push(txs.len());
                     got.extend(txs.into_iter().map(|t| t.0));
                 }
@@ -825,7 +955,30 @@ fn judge(
     } else {
         summary += &format!(" follower events [{}]", fev.iter().map(|e| e.0.clone()).collect::<Vec<_>>().join(","));
     }
-    summary
+    // --- canonical lines for the correspondence with the Lean model (AgModel.BlockProducer)
+    let mut slice_lines = vec![];
+    for (k, v) in views.iter().enumerate() {
+        slice_lines.push(match &v.slice {
+            Some(s) => {
+                let par = s.parent.as_ref().map(|p| format!("{} {}", p.0.inner(), intern(&mut w.hashes, hbytes(&p.1)))).unwrap_or("-".into());
+                let ntx = if s.data.len() >= 8 { u64::from_le_bytes(s.data[..8].try_into().expect("8 bytes")) } else { u64::MAX };
+                format!("slice {k} last {} parent {par} ntx {ntx} data {} enc {} ids {}", s.is_last as u8, s.data.len(), v.enc_len, ids_hash[k])
+            }
+            None => format!("slice {k} undecodable"),
+        });
+    }
+    let block_line = match &done {
+        Some(id) => {
+            let guard = leader_store.try_read().expect("leader store is free");
+            let par = guard.get_block(id).map(|b| b.verif_parent()).map(|p| format!("{} {}", p.0.inner(), intern(&mut w.hashes, hbytes(&p.1)))).unwrap_or("? ?".into());
+            format!("block done slices {nslices} parent {par} hash {} txs {}", intern(&mut w.hashes, hbytes(&id.1)), got.len())
+        }
+        None => format!("block {} slices {nslices}", match outcome {
+            Outcome::Panicked(_) | Outcome::Failed(_) => "panic",
+            _ => "blocked",
+        }),
+    };
+    (summary, slice_lines, block_line)
 }
 
 // ---------------------------------------------------------------------------------------------------------
@@ -1118,7 +1271,7 @@ fn main() {
     let mut rng = Rng::new(args.seed);
     let keys = Keys::new(&mut rng);
     let pk = keys.sks[0].to_pk();
-    let mut w = World { rec: Recorder::new(), keys, pk, class: 0, shredder: RegularShredder::default() };
+    let mut w = World { rec: Recorder::new(), keys, pk, class: 0, shredder: RegularShredder::default(), hashes: vec![] };
     let t0 = std::time::Instant::now();
     let mut plans = directed(&mut rng, args.thorough);
     let n_random = if args.thorough { 2000 } else { 60 };
